@@ -203,11 +203,11 @@ func judgePair(r *h.Run, kind string, p *pair, coreWindow time.Duration) {
 
 func init() {
 	Register(&Prop{ID: "C06",
-		Meta: Meta{Level: "exploration",
-			Rule: "real net/rpc Client+Serve in two simulated processes; k in [1,8] brokered IDs per run with drawn direction, accept/dial order, gap 0-4.5s and payload size, concurrent Dispense traffic (up to 6 dispenses of several plugin names whose Server() takes 0-1.2 s and, for two of them, fails); seeded schedule noise (yields/sleeps at woven points, focus on mux_broker.go), socket latency and short reads; oracle = rendezvous reference model (answer through Dial(n) is id=n with the payload checksum; pairs issued <=2s apart incl. injected delay must both succeed; every Dispense reaches a distinct fresh server object)"},
+		Meta: Meta{Stages: 2, Level: "exploration",
+			Rule: "real net/rpc Client+Serve in two simulated processes; k in [1,8] brokered IDs per run with drawn direction, accept/dial order, gap 0-4.5s and payload size, concurrent Dispense traffic (up to 6 dispenses of several plugin names whose Server() takes 0-1.2 s and, for two of them, fails); seeded schedule noise (yields/sleeps at woven points, focus on mux_broker.go), socket latency and short reads; oracle = rendezvous reference model (answer through Dial(n) is id=n with the payload checksum; pairs issued <=2s apart incl. injected delay must both succeed; every Dispense reaches a distinct fresh server object) Plus the rendezvous with ONE CONTEXT SWITCH AT EVERY STATEMENT: stage 0 profiles the go-plugin statements either process passes while one pair is established (direction x order), stage 1 runs one case per (process, statement, occurrence) in which the peer issues its half of the pair exactly while that goroutine is at that statement (or, if already issued, the goroutine stays there 2 ms); the dial must succeed and be answered by id=n, the control connection and a fresh pair must still work."},
 		Plan: func(tier string, seed uint64, stage int, prev []*h.Result) []*k.Spec {
 			if stage > 0 {
-				return nil
+				return pairRaceSpecs("C06", P(), tier, seed, stage, prev)
 			}
 			n := 1500
 			if tier == "thorough" {
@@ -216,7 +216,7 @@ func init() {
 			if tier == "selftest" {
 				n = 6
 			}
-			var out []*k.Spec
+			out := pairRaceSpecs("C06", P(), tier, seed, 0, nil)
 			// fixed corner cases first
 			for _, dir := range []string{"h", "p"} {
 				for _, ord := range []string{"a", "d"} {
@@ -235,7 +235,13 @@ func init() {
 			})...)
 			return out
 		},
-		Run: func(r *h.Run) { runBrokerPairs(r, h.Conf{Proto: "netrpc"}, "mux") },
+		Run: func(r *h.Run) {
+			if r.Spec.P("pairrace", "") != "" {
+				runPairRace(r, h.Conf{Proto: "netrpc"}, "mux")
+				return
+			}
+			runBrokerPairs(r, h.Conf{Proto: "netrpc"}, "mux")
+		},
 	})
 }
 
@@ -488,11 +494,11 @@ func confCases() []map[string]string {
 
 func init() {
 	Register(&Prop{ID: "C07",
-		Meta: Meta{Level: "exploration",
-			Rule: "real gRPC Client+Serve (no multiplexing) in two simulated processes; k in [1,8] brokered IDs per run, both directions, drawn accept/dial order and gap 0-4.9s; in a third of the runs an ID is used a second time after its listener was closed (own server on Broker.Accept, stopped, same ID accepted and dialled again 3.2-4.8 s later in either order); TLS none/AutoMTLS; command launch and custom runner with a container-style (chroot + bind mount) address translation; seeded schedule noise with focus on grpc_broker.go, socket latency/short reads; oracle = the PingPong answer through Dial(n) is id=n, first call succeeds for pairs issued <=2s apart (incl. injected delay)"},
+		Meta: Meta{Stages: 2, Level: "exploration",
+			Rule: "real gRPC Client+Serve (no multiplexing) in two simulated processes; k in [1,8] brokered IDs per run, both directions, drawn accept/dial order and gap 0-4.9s; in a third of the runs an ID is used a second time after its listener was closed (own server on Broker.Accept, stopped, same ID accepted and dialled again 3.2-4.8 s later in either order); TLS none/AutoMTLS; command launch and custom runner with a container-style (chroot + bind mount) address translation; seeded schedule noise with focus on grpc_broker.go, socket latency/short reads; oracle = the PingPong answer through Dial(n) is id=n, first call succeeds for pairs issued <=2s apart (incl. injected delay) Plus the rendezvous with ONE CONTEXT SWITCH AT EVERY STATEMENT: stage 0 profiles the go-plugin statements either process passes while one pair is established (direction x order), stage 1 runs one case per (process, statement, occurrence) in which the peer issues its half of the pair exactly while that goroutine is at that statement (or, if already issued, the goroutine stays there 2 ms); the dial must succeed and be answered by id=n, the control connection and a fresh pair must still work."},
 		Plan: func(tier string, seed uint64, stage int, prev []*h.Result) []*k.Spec {
 			if stage > 0 {
-				return nil
+				return pairRaceSpecs("C07", nil, tier, seed, stage, prev)
 			}
 			n := 1200
 			if tier == "thorough" {
@@ -502,6 +508,9 @@ func init() {
 				n = 6
 			}
 			var out []*k.Spec
+			for _, cc := range []map[string]string{P("tls", "none", "launch", "cmd"), P("tls", "auto", "launch", "runner", "xlate", "1")} {
+				out = append(out, pairRaceSpecs("C07", cc, tier, seed, 0, nil)...)
+			}
 			for ci, cc := range confCases() {
 				for _, dir := range []string{"h", "p"} {
 					for _, ord := range []string{"a", "d"} {
@@ -544,6 +553,10 @@ func init() {
 			if c.TLS == "auto" {
 				r.WatchPlaintext("broker=grpc tls=auto")
 			}
+			if r.Spec.P("pairrace", "") != "" {
+				runPairRace(r, c, "grpc")
+				return
+			}
 			runBrokerPairs(r, c, "grpc")
 		},
 	})
@@ -553,11 +566,11 @@ func init() {
 
 func init() {
 	Register(&Prop{ID: "C08",
-		Meta: Meta{Level: "exploration",
-			Rule: "real gRPC Client+Serve with broker multiplexing; a sequence of 1-5 brokered connections established one at a time as documented (drawn direction, accept-first or dial-first, gap 0-4s), pings on the main connection and on every earlier brokered connection in between; seeded schedule noise with focus on GRPCBroker.Accept/listenForKnocks/knock/muxDial and the grpcmux package; oracle = connection n answers id=n (never the main service or another id), first call succeeds for pairs inside the window, main and earlier connections keep answering"},
+		Meta: Meta{Stages: 2, Level: "exploration",
+			Rule: "real gRPC Client+Serve with broker multiplexing; a sequence of 1-5 brokered connections established one at a time as documented (drawn direction, accept-first or dial-first, gap 0-4s), pings on the main connection and on every earlier brokered connection in between; seeded schedule noise with focus on GRPCBroker.Accept/listenForKnocks/knock/muxDial and the grpcmux package; oracle = connection n answers id=n (never the main service or another id), first call succeeds for pairs inside the window, main and earlier connections keep answering Plus the rendezvous with ONE CONTEXT SWITCH AT EVERY STATEMENT: stage 0 profiles the go-plugin statements either process passes while one pair is established (direction x order), stage 1 runs one case per (process, statement, occurrence) in which the peer issues its half of the pair exactly while that goroutine is at that statement (or, if already issued, the goroutine stays there 2 ms); the dial must succeed and be answered by id=n, the control connection and a fresh pair must still work."},
 		Plan: func(tier string, seed uint64, stage int, prev []*h.Result) []*k.Spec {
 			if stage > 0 {
-				return nil
+				return pairRaceSpecs("C08", nil, tier, seed, stage, prev)
 			}
 			n := 1200
 			if tier == "thorough" {
@@ -567,6 +580,9 @@ func init() {
 				n = 6
 			}
 			var out []*k.Spec
+			for _, tls := range []string{"none", "auto"} {
+				out = append(out, pairRaceSpecs("C08", P("tls", tls), tier, seed, 0, nil)...)
+			}
 			for _, tls := range []string{"none", "auto"} {
 				for _, dir := range []string{"h", "p"} {
 					for _, ord := range []string{"a", "d"} {
@@ -602,6 +618,10 @@ func runC08(r *h.Run) {
 	c.Proto, c.Mux = "grpc", true
 	if c.TLS == "auto" {
 		r.WatchPlaintext("broker=grpcmux tls=auto")
+	}
+	if r.Spec.P("pairrace", "") != "" {
+		runPairRace(r, c, "grpcmux")
+		return
 	}
 	s := open(r, c)
 	if s == nil {
